@@ -52,7 +52,7 @@ def run(prog, rep):
     key = cacheproto.check_eviction_and_counter(prog, rep, "C04-R5", en)
     rep.floor("C04-R5", 6)
     cacheproto.check_key_recipe(prog, rep, "C04-R2", en, key)
-    rep.floor("C04-R2", 3)
+    rep.floor("C04-R2", 2)
     cacheproto.check_store_guard(prog, rep, "C04-R3", en)
     cacheproto.check_read_guard(prog, rep, "C04-R3", en)
     rep.floor("C04-R3", 4)
